@@ -33,6 +33,8 @@ CONSTANTS Scenarios,  \* set of scenario records, one is chosen initially (varia
           Defects     \* "NoRecheck":      tryPassivation re-checks nothing but skip-next after taking stopLocker
                       \* "StaleTurnClock": activity is stamped with the turn's start time, not the handling time
                       \* "StaleCountTrigger": a count trigger queued before a re-registration still passivates
+                      \* "DoublePush":     trigger() pushes the refused entry again although a Resume / Register has already
+                      \*                   put it back while the mutex was released (two copies in the heap, one shared index)
                       \* "HotRearm":       trigger() re-queues a refused entry with a deadline that may be due at once (and
                       \*                   pops it again immediately; the manager spins while the refusal lasts)
 
@@ -53,6 +55,7 @@ NoRecheck == "NoRecheck" \in Defects
 StaleClock == "StaleTurnClock" \in Defects
 StaleTrigger == "StaleCountTrigger" \in Defects
 HotRearm == "HotRearm" \in Defects
+DoublePush == "DoublePush" \in Defects
 TimeS == sc.strategy = "time"
 CountS == sc.strategy = "count"
 NoMsg == [id |-> 0, kind |-> "none"]
@@ -60,7 +63,7 @@ NoMsg == [id |-> 0, kind |-> "none"]
 \* state after Spawn + PostStart handled at tick 0: registered; PostStart counted (processed = 1, baseline = 0 + 1)
 InitSt(c) == [running |-> TRUE, stopping |-> FALSE, suspended |-> FALSE, pflag |-> FALSE, skip |-> FALSE, passivating |-> FALSE,
            hasB |-> TRUE, lastAct |-> 0, lastTouch |-> 0, processed |-> 1,
-           reg |-> c.strategy # "long", gen |-> 1, inHeap |-> c.strategy = "time", deadline |-> c.T, epaused |-> FALSE,
+           reg |-> c.strategy # "long", gen |-> 1, inHeap |-> c.strategy = "time", copies |-> (IF c.strategy = "time" THEN 1 ELSE 0), deadline |-> c.T, epaused |-> FALSE,
            pending |-> FALSE, enqueued |-> FALSE, base |-> 1, trig |-> <<>>,
            lastHandled |-> 0, hsr |-> 0, ok |-> FALSE]
 
@@ -79,23 +82,26 @@ Refresh(s) == IF s.lastAct < 0 THEN now + sc.T ELSE s.lastAct + sc.T
 RegisterEff(s) ==
   IF sc.strategy = "long" THEN s
   ELSE LET g == IF s.reg THEN s.gen ELSE s.gen + 1 IN
+       LET c0 == IF s.reg /\ s.inHeap THEN s.copies - 1 ELSE s.copies IN     \* an existing entry is first taken off the heap
        IF TimeS
        THEN [s EXCEPT !.reg = TRUE, !.gen = g, !.epaused = FALSE, !.pending = FALSE, !.enqueued = FALSE,
-                      !.inHeap = TRUE, !.deadline = Refresh(s)]
+                      !.inHeap = TRUE, !.copies = c0 + 1, !.deadline = Refresh(s)]
        ELSE [s EXCEPT !.reg = TRUE, !.gen = g, !.epaused = FALSE, !.pending = FALSE, !.enqueued = FALSE,
-                      !.inHeap = FALSE, !.base = s.processed + 1, !.hsr = 0]
+                      !.inHeap = FALSE, !.copies = c0, !.base = s.processed + 1, !.hsr = 0]
 
-UnregisterEff(s) == [s EXCEPT !.reg = FALSE, !.inHeap = FALSE]
+\* heap.Remove only when the entry knows its position (index >= 0); a copy it does not know about stays behind
+UnregisterEff(s) == [s EXCEPT !.reg = FALSE, !.inHeap = FALSE, !.copies = IF s.inHeap THEN @ - 1 ELSE @]
 
 \* pid.pausePassivation: manager.Pause then the pid flag
-PauseEff(s) == LET s1 == IF s.reg /\ ~s.epaused THEN [s EXCEPT !.epaused = TRUE, !.inHeap = FALSE] ELSE s
+PauseEff(s) == LET s1 == IF s.reg /\ ~s.epaused THEN [s EXCEPT !.epaused = TRUE, !.inHeap = FALSE,
+                                                                  !.copies = IF s.inHeap THEN @ - 1 ELSE @] ELSE s
                IN [s1 EXCEPT !.pflag = TRUE]
 
 \* passivationManager.Resume (result in .ok)
 ResumeMgr(s) ==
   IF ~s.reg THEN [s EXCEPT !.ok = FALSE]
   ELSE IF ~s.epaused THEN [s EXCEPT !.ok = TRUE]
-  ELSE IF TimeS THEN [s EXCEPT !.ok = TRUE, !.epaused = FALSE, !.deadline = Refresh(s), !.inHeap = TRUE]
+  ELSE IF TimeS THEN [s EXCEPT !.ok = TRUE, !.epaused = FALSE, !.deadline = Refresh(s), !.inHeap = TRUE, !.copies = @ + 1]
   ELSE IF s.pending /\ ~s.enqueued
        THEN [s EXCEPT !.ok = TRUE, !.epaused = FALSE, !.enqueued = TRUE, !.trig = Append(@, s.gen)]
        ELSE [s EXCEPT !.ok = TRUE, !.epaused = FALSE]
@@ -191,14 +197,14 @@ CTell == /\ cpc <= Len(sc.ctls) /\ cpc' = cpc + 1
 MU == <<sc, now, usr, sys, sched, tpc, tmsg, tnow, nturn, ppc, cpc, xpc, upc, rpc, inH>>     \* untouched by manager steps
 
 \* run(): nextEntry found the entry due (or the timer fired) -> trigger(entry)
-MFire == /\ mpc = "idle" /\ TimeS /\ st.reg /\ st.inHeap /\ now >= st.deadline
+MFire == /\ mpc = "idle" /\ TimeS /\ st.reg /\ st.copies > 0 /\ ~st.epaused /\ now >= st.deadline
          /\ mpc' = "trig" /\ mgen' = st.gen
          /\ UNCHANGED <<MU, st, mvia, mres, lock, psRuns, inPS>>
 
 \* trigger(): under mu: still the head, still due -> Pop, unlock
 MTrigger == /\ mpc = "trig"
-            /\ IF st.reg /\ st.gen = mgen /\ st.inHeap /\ st.deadline <= now
-               THEN st' = [st EXCEPT !.inHeap = FALSE] /\ mpc' = "popped" /\ mvia' = "time"
+            /\ IF st.reg /\ st.gen = mgen /\ st.copies > 0 /\ st.deadline <= now
+               THEN st' = [st EXCEPT !.inHeap = FALSE, !.copies = @ - 1] /\ mpc' = "popped" /\ mvia' = "time"
                ELSE mpc' = "idle" /\ UNCHANGED <<st, mvia>>
             /\ UNCHANGED <<MU, mgen, mres, lock, psRuns, inPS>>
 
@@ -237,9 +243,11 @@ MRelock == /\ mpc = "relock"
            /\ IF ~st.reg \/ st.gen # mgen THEN mpc' = "idle" /\ UNCHANGED st
               ELSE IF mres THEN mpc' = "idle" /\ st' = UnregisterEff(st)
               ELSE IF st.epaused THEN mpc' = "idle" /\ UNCHANGED st
-              ELSE LET d == Refresh(st) IN
-                   IF d <= now /\ HotRearm THEN st' = [st EXCEPT !.deadline = d, !.inHeap = FALSE] /\ mpc' = "popped"
-                   ELSE st' = [st EXCEPT !.deadline = (IF d <= now THEN now + sc.T ELSE d), !.inHeap = TRUE] /\ mpc' = "idle"
+              ELSE LET d == Refresh(st)
+                       \* already back in the heap (Pause + Resume, Register while the mutex was released): Fix, do not Push
+                       n == IF st.inHeap /\ ~DoublePush THEN st.copies ELSE st.copies + 1 IN
+                   IF d <= now /\ HotRearm THEN st' = [st EXCEPT !.deadline = d, !.inHeap = FALSE, !.copies = n - 1] /\ mpc' = "popped"
+                   ELSE st' = [st EXCEPT !.deadline = (IF d <= now THEN now + sc.T ELSE d), !.inHeap = TRUE, !.copies = n] /\ mpc' = "idle"
            /\ UNCHANGED <<MU, mvia, mgen, mres, lock, psRuns, inPS>>
 
 \* message-count path: run() receives an entry from messageTriggers -> processMessageEntry
@@ -311,6 +319,9 @@ PostStopOnce == psRuns <= 1
 NeverLongLived == sc.strategy = "long" => mpc = "idle"
 PassivatedStops == (mpc \in {"relock", "msgrelock"} /\ mres) => ~st.running
 TokensSuffice == nturn < MaxTurns
+\* the deadline heap holds the entry exactly when the entry knows its position (a stray copy makes nextEntry panic on
+\* heap.Remove(queue, -1) as soon as the entry is paused)
+HeapConsistent == st.copies = (IF st.inHeap THEN 1 ELSE 0)
 \* the manager goroutine serves every actor of the system: it must always come back to its run loop (no spinning on one entry)
 ManagerSettles == []<>(mpc = "idle")
 =============================================================================
